@@ -53,37 +53,40 @@ class Lookup:
     def err(self, what: str):
         raise ValueError(f"{self.cls}.{self.name}: {what}")
 
-    # -- tests: (lean Bool, facts that hold when true)
-    def test(self, e: ast.AST, facts: Set[str]) -> Tuple[str, Set[str]]:
+    # -- tests: (lean Bool, facts that hold when the test is true, facts that hold when it is false)
+    def test(self, e: ast.AST, facts: Set[str]) -> Tuple[str, Set[str], Set[str]]:
         if isinstance(e, ast.BoolOp):
-            parts, fs = [], set()
+            conj = isinstance(e.op, ast.And)
+            parts, acc = [], set()
             cur = set(facts)
             for v in e.values:
-                s, f = self.test(v, cur)
+                s, ft, ff = self.test(v, cur)
                 parts.append(s)
-                if isinstance(e.op, ast.And):
-                    cur |= f
-                    fs |= f
-            return "(" + (" && " if isinstance(e.op, ast.And) else " || ").join(parts) + ")", (fs if isinstance(e.op, ast.And) else set())
+                got = ft if conj else ff  # `and`: later operands run with the earlier ones true; `or`: with them false
+                cur |= got
+                acc |= got
+            txt = "(" + (" && " if conj else " || ").join(parts) + ")"
+            return (txt, acc, set()) if conj else (txt, set(), acc)
         if isinstance(e, ast.UnaryOp) and isinstance(e.op, ast.Not):
-            return "(!" + self.test(e.operand, facts)[0] + ")", set()
+            s, ft, ff = self.test(e.operand, facts)
+            return "(!" + s + ")", ff, ft
         t = ast.unparse(e)
         table = {
-            "arp_entry": ("hit", {"hit"}),
-            "is_reattempt": ("re", set()),
-            self.gwflag: ("gw", set()),
-            f"ip_address == {GW}": ("(gwSet && decide (ip = gwIp))", {"gw"}),
-            GW: ("gwSet", {"gw"}),
-            "self.router.ip_is_in_router_interface_subnet(ip_address)": ("inSub", set()),
-            "route": ("route.isSome", {"route"}),
-            DFR: ("dfSet", {"df"}),
+            "arp_entry": ("hit", {"hit"}, set()),
+            "is_reattempt": ("re", set(), set()),
+            self.gwflag: ("gw", set(), set()),
+            f"ip_address == {GW}": ("(gwSet && decide (ip = gwIp))", {"gw"}, set()),
+            GW: ("gwSet", {"gw"}, set()),
+            "self.router.ip_is_in_router_interface_subnet(ip_address)": ("inSub", set(), set()),
+            "route": ("route.isSome", {"route"}, set()),
+            DFR: ("dfSet", {"df"}, set()),
         }
         if t in table:
             return table[t]
         if t == f"route != {DFR}" and "route" in facts:
-            return "(!route.isDflt)", set()
+            return "(!route.isDflt)", set(), {"df"}
         if t == f"route == {DFR}" and "route" in facts:
-            return "route.isDflt", {"df"}
+            return "route.isDflt", {"df"}, set()
         self.err(f"unknown term in a test: {t}")
 
     def ip(self, e: ast.AST, facts: Set[str]) -> str:
@@ -124,8 +127,8 @@ class Lookup:
                 return f"(if route.isRaised then Step.raised else {self.block(rest, facts)})"
             self.err(f"assignment not in the translation table: {t}")
         if isinstance(s, ast.If):
-            c, f = self.test(s.test, facts)
-            return f"(if {c} then {self.block(list(s.body) + rest, facts | f)} else {self.block(list(s.orelse) + rest, facts)})"
+            c, ft, ff = self.test(s.test, facts)
+            return f"(if {c} then {self.block(list(s.body) + rest, facts | ft)} else {self.block(list(s.orelse) + rest, facts | ff)})"
         if isinstance(s, ast.For):
             if (ast.unparse(s.iter) == "self.router.network_interfaces.values()" and ast.unparse(s.target) == "network_interface" and not s.orelse
                     and len(s.body) == 1 and isinstance(s.body[0], ast.If) and not s.body[0].orelse
